@@ -12,7 +12,7 @@ columns `1..rank` with the row expansion `ggsw_expand_row` (`Core.expandRow`, Mo
 C04) and the GGLWE→GGSW tensor key.  A GGSW is the list of its column-0 cells (one `Ct` per row) on the way in
 and the list of all its cells in (row, column) order on the way out.
 
-`ggsw_keyswitch` loops over `res.dnum()` rows (since poulpy 95a5a90; before, it looped over `a.dnum()` and
+`ggsw_keyswitch` loops over `res.dnum()` rows (since poulpy 4a48098; before, it looped over `a.dnum()` and
 panicked for `res.dnum() < a.dnum()` although its entry assertion admits it — found by this slice).
 -/
 
@@ -32,7 +32,7 @@ def ggswKeyswitch (big128 : Bool) (n resBase2k resSize resDnum resDsize : Nat) (
   else if resDsize ≠ aDsize then .panic "assert"
   else if resBase2k ≠ aBase2k then .panic "assert"
   else
-    -- for row in 0..res.dnum() { glwe_keyswitch(res.at_mut(row, 0), a.at(row, 0), key) }   (poulpy 95a5a90)
+    -- for row in 0..res.dnum() { glwe_keyswitch(res.at_mut(row, 0), a.at(row, 0), key) }   (poulpy 4a48098)
     obind (oall ((List.range resDnum).map (fun row =>
       match aCol0[row]? with
       | none => Outcome.panic "bounds"
